@@ -69,6 +69,17 @@ def main():
         finally:
             free.put(w)
     todo = [s for s in seeds if os.path.exists(os.path.join(VERIF, SUB, s, 'patch.diff'))]
+
+    def superseded(s):
+        mp = os.path.join(VERIF, SUB, s, 'meta.json')
+        try:
+            return bool(json.load(open(mp)).get('neutralised_by'))
+        except Exception:
+            return False
+    skipped = [s for s in todo if superseded(s)]
+    if skipped:
+        print('superseded seeds (behaviour-preserving on the current tree, skipped):', skipped, flush=True)
+    todo = [s for s in todo if s not in skipped]
     with cf.ThreadPoolExecutor(max_workers=jobs) as ex:
         for s, got, err, dt in ex.map(run, todo):
             if err:
@@ -99,9 +110,17 @@ def main():
 if __name__ == '__main__':
     if '--child' in sys.argv:
         import io, contextlib
+        import threading
         buf = io.StringIO()
-        with contextlib.redirect_stderr(buf):
-            out = run_all()
-        print(json.dumps(out))
+        box = {}
+
+        def target():
+            with contextlib.redirect_stderr(buf):
+                box['out'] = run_all()
+        threading.stack_size(1024 * 1024 * 1024)
+        t = threading.Thread(target=target)
+        t.start()
+        t.join()
+        print(json.dumps(box.get('out', {'_error': {'crash': buf.getvalue()[-800:]}})))
     else:
         main()
